@@ -1002,6 +1002,24 @@ func helpTest(fn *ssa.Function) *ssa.If {
 		if call, ok := c.(*ssa.Call); ok && isHelpCalledPredicate(call, 0) {
 			out = iff
 		}
+		// the answer kept in a variable: `called := name != "" && gopt.Called(name)` - false where the predicate
+		// was not evaluated, the predicate's result elsewhere
+		if phi, ok := c.(*ssa.Phi); ok && out == nil {
+			n, good := 0, true
+			for _, e := range phi.Edges {
+				if k, isC := e.(*ssa.Const); isC && k.Value != nil && k.Value.String() == "false" {
+					continue
+				}
+				if call, isCall := e.(*ssa.Call); isCall && isHelpCalledPredicate(call, 0) {
+					n++
+					continue
+				}
+				good = false
+			}
+			if good && n > 0 {
+				out = iff
+			}
+		}
 	}
 	return out
 }
